@@ -66,7 +66,18 @@ FRACTIONS = [('recognize_number', 'one third', 'en-us'), ('recognize_number', '‰
              ('recognize_number', '1234567890123456789', 'en-us'), ('recognize_percentage', '12345678901234567.5%', 'en-us'),
              ('recognize_dimension', '12345678901234567.5 km', 'en-us'), ('recognize_temperature', '1234567890123456.75 degrees', 'en-us'),
              ('recognize_number', '1234567890123456,789', 'fr-fr'), ('recognize_number', '12345678901234567', 'zh-cn'),
-             ('recognize_number', 'three and 12345678901234567 eighteenths', 'en-us')]
+             ('recognize_number', 'three and 12345678901234567 eighteenths', 'en-us'),
+             # numerically equal values reached through different parser paths (int / Decimal / float results, words vs
+             # digits): a memo keyed by the value alone would make the answer depend on which spelling came first
+             ('recognize_number', '‰∏ÄÂçÉ‰∏á‰∫ø', 'zh-cn'), ('recognize_number', '1000000000000000', 'zh-cn'),
+             ('recognize_number', 'ÂçÉÂÖÜ', 'ja-jp'), ('recognize_number', '1000000000000000', 'ja-jp'),
+             ('recognize_number', '‰∏Ä‰∏á', 'zh-cn'), ('recognize_number', '10000', 'zh-cn'), ('recognize_number', '10000.0', 'zh-cn'),
+             ('recognize_number', 'one quadrillion', 'en-us'), ('recognize_number', '1000000000000000', 'en-us'),
+             ('recognize_number', '1000000000000000.0', 'en-us'), ('recognize_number', '1e15', 'en-us'),
+             ('recognize_number', 'two', 'en-us'), ('recognize_number', '2', 'en-us'), ('recognize_number', '2.0', 'en-us'),
+             ('recognize_number', 'one million', 'en-us'), ('recognize_number', '1,000,000', 'en-us'), ('recognize_number', '1000000.00', 'en-us'),
+             ('recognize_number', 'un mill√≥n', 'es-es'), ('recognize_number', '1.000.000', 'es-es'), ('recognize_number', '1000000,0', 'es-es'),
+             ('recognize_percentage', '‰∏ÄÁôæ%', 'zh-cn'), ('recognize_percentage', '100%', 'zh-cn'), ('recognize_percentage', '100.0%', 'zh-cn')]
 
 SPEC_FN = {('Number', 'Number'): 'recognize_number', ('Number', 'Ordinal'): 'recognize_ordinal',
            ('Number', 'Percent'): 'recognize_percentage',
